@@ -297,6 +297,86 @@ theorem amount_is_float_of_cleaned (o : Oracles) (eu : Bool) (cellText : Str) :
   dsimp only
   cases o.pyFloat s <;> rfl
 
+/-! ## tokenisation: every row of the file is read as itself, whatever its cells begin with or contain
+
+`Csv.readCsv` is CPython's reader automaton, `Csv.writeCsv` what `csv.writer` emits, `Csv.iterRows` is
+`_iter_rows_with_delimiter` (all three tied to the real code by correspondence on the generated files).
+(The quote character is written `'\x22'` in this file: the harness's comment stripper, which lists the theorems, reads a
+bare double quote as the start of a string literal.) -/
+
+/-- Reading what was written gives back the table: each row is exactly one record with exactly its cells - for ALL cell
+texts (delimiters, quotes, line breaks inside cells, cells or continuation lines beginning with `#`, `;`, blanks, a BOM …),
+empty rows and empty cells included.  No row changes how another row is read. -/
+theorem readCsv_writeCsv (d : Char) (hd1 : d ≠ '\x22') (hd2 : d ≠ '\n') (rows : List (List Str)) :
+    readCsv d (writeCsv d rows) = rows := by
+  simp only [readCsv, run_writeCsv d hd1 hd2 rows]
+  simp [RS.flush, RS.init]
+
+/-- Records are read independently: if the text `a` ends where a record ends (the automaton is back in its start
+state), the records of `a ++ b` are those of `a` followed by those of `b`. -/
+theorem readCsv_append (d : Char) (a b : Str) (h : (runCsv d RS.init a).2 = RS.init) :
+    readCsv d (a ++ b) = readCsv d a ++ readCsv d b := by
+  have hf : RS.init.flush = [] := by simp [RS.flush, RS.init]
+  simp only [readCsv, runCsv_append, h, hf, List.append_nil, List.append_assoc]
+
+/-- `header_skip` (csv kinds): with `has_header` the first written row - and only it - is not data; without, every row is. -/
+theorem iterRows_written (m : Str → Option (List Str)) (d : Char) (hd1 : d ≠ '\x22') (hd2 : d ≠ '\n')
+    (hdr : List Str) (rows : List (List Str)) :
+    iterRows m (.csv d) true (writeCsv d (hdr :: rows)) = rows ∧
+    iterRows m (.csv d) false (writeCsv d rows) = rows := by
+  simp [iterRows, readCsv_writeCsv d hd1 hd2]
+
+/-- `regex_rows`: under a `regex:` delimiter the header is physical line 0 and nothing else; every other line contributes on
+its own: nothing when it is blank or the pattern does not match, else the groups of the match on the stripped line. -/
+theorem regex_rows (m : Str → Option (List Str)) (hasHeader : Bool) (text : Str) :
+    iterRows m .regex hasHeader text =
+      ((if hasHeader then (splitLines text).drop 1 else splitLines text).filterMap (lineRow m)) := by
+  simp only [iterRows]
+  cases hasHeader with
+  | false =>
+    generalize splitLines text = ls
+    simp only [Bool.false_eq_true, if_false]
+    cases ls with
+    | nil => simp [regexLoop]
+    | cons l ls =>
+      simp only [regexLoop, Bool.false_and, Bool.false_eq_true, if_false, List.filterMap_cons, lineRow, regexLoop_succ]
+      by_cases he : (strip l).isEmpty = true
+      · simp [he]
+      · simp only [he, Bool.false_eq_true, if_false]; cases m (strip l) <;> simp
+  | true =>
+    generalize splitLines text = ls
+    cases ls with
+    | nil => simp [regexLoop]
+    | cons l ls => simp [regexLoop, regexLoop_succ]
+
+/-- a blank or non-matching line (not the header line) never changes how the other lines are read -/
+theorem regex_bad_line_neutral (m : Str → Option (List Str)) (hdr : Option Str) (pre post : List Str) (l : Str)
+    (hl : lineRow m l = none) :
+    regexLoop m hdr.isSome 0 (hdr.toList ++ pre ++ l :: post) = regexLoop m hdr.isSome 0 (hdr.toList ++ pre ++ post) := by
+  cases hdr with
+  | none =>
+    cases pre with
+    | nil =>
+      cases post with
+      | nil => simp [regexLoop, lineRow] at hl ⊢; by_cases he : (strip l).isEmpty = true <;> simp_all
+      | cons p ps =>
+        simp only [Option.toList, List.nil_append, Option.isSome, regexLoop, Bool.false_and, Bool.false_eq_true, if_false,
+          regexLoop_succ] at hl ⊢
+        simp only [lineRow] at hl
+        by_cases he : (strip l).isEmpty = true
+        · simp [he]
+        · simp only [he, Bool.false_eq_true, if_false] at hl ⊢; simp [hl]
+    | cons p ps =>
+      simp [regexLoop, regexLoop_succ, List.filterMap_append, hl]
+  | some h => simp [regexLoop, regexLoop_succ, List.filterMap_append, hl]
+
+/-- From the file to the transactions (csv kinds, header written): the transactions are exactly those of the accepted
+rows of the table, one each, in order - tokenisation and the row loop composed. -/
+theorem statement_filterMap (o : Oracles) (cfg : Cfg) (m : Str → Option (List Str)) (d : Char) (hd1 : d ≠ '\x22') (hd2 : d ≠ '\n')
+    (hdr : List Str) (rows : List (List Str)) (h : NoFatal o cfg rows) :
+    parseFile o cfg (iterRows m (.csv d) true (writeCsv d (hdr :: rows))) = .ok (rows.filterMap (rowTxn o cfg)) := by
+  rw [(iterRows_written m d hd1 hd2 hdr rows).1]; exact parseFile_filterMap o cfg rows h
+
 /-! ## non-vacuity: concrete inputs satisfying the hypotheses -/
 
 /-- a 3-row table: accepted, skipped (bad date), accepted — two transactions in order, `NoFatal` holds -/
@@ -329,6 +409,21 @@ example :
     refsOk (cc.map (·.1)) segs = true ∧
     renderSegs segs = ['{', 'm', '}', ' ', '(', '{', 't', '}', ')'] ∧
     fillSegs (captureCells row cc) segs = ['B', 'ä', 'c', 'k', ' ', '(', 'c', 'a', 'r', 'd', ')'] := by
+  decide +kernel
+
+/-- a table whose rows begin with `#`, `;` and a blank, with a two-line cell whose second line begins with `#`, an embedded
+delimiter and an embedded quote: the text `csv.writer` produces, and `readCsv` / `iterRows` of it -/
+example :
+    let rows : List (List Str) := [['#', '1'], ['a', '\n', '#', 'b']] :: [[';'], [',', '\x22']] :: [] :: [[]] :: [[' ', '#'], []] :: []
+    writeCsv ',' rows = "#1,\"a\n#b\"\n;,\",\"\"\"\n\n\"\"\n #,\n".toList ∧
+    readCsv ',' (writeCsv ',' rows) = rows ∧
+    iterRows (fun _ => none) (.csv ',') true (writeCsv ',' rows) = rows.drop 1 := by
+  decide +kernel
+
+/-- regex kind: header line, a `#` line, a blank line and a non-matching line -/
+example :
+    let m : Str → Option (List Str) := fun s => if s.head? = some '!' then none else some [s]
+    iterRows m .regex true "Date|X\n#1042|5\n   \n!x\n  b|6  ".toList = [[['#', '1', '0', '4', '2', '|', '5']], [['b', '|', '6']]] := by
   decide +kernel
 
 /-- the style hypothesis of the round-trip theorems is satisfiable -/
